@@ -399,8 +399,38 @@ def install_tie_counters():
     f = orig_ne.__func__
 
     def nearest_entity(cls, *a, **k):
+        # observe the distances the search evaluates: a tie for the minimum between valid entities in different
+        # search cells is decided by the order in which the ring's cells are visited
+        seen = {}
+        df, iv = k.get("distance_function"), k.get("is_valid")
+        if df is not None and iv is not None:
+            def df2(e, df=df):
+                d = df(e)
+                seen.setdefault(getattr(e, "id", id(e)), [d, None, getattr(e, "geoid", None)])[0] = d
+                return d
+
+            def iv2(e, iv=iv):
+                ok = iv(e)
+                seen.setdefault(getattr(e, "id", id(e)), [None, ok, getattr(e, "geoid", None)])[1] = ok
+                return ok
+
+            k = dict(k, distance_function=df2, is_valid=iv2)
         res = f(cls, *a, **k)
         REC.calls["nearest_entity_calls"] += 1
+        try:
+            if res is not None and seen:
+                best = seen.get(getattr(res, "id", None), [None])[0]
+                res_cell = k.get("sim_h3_search_resolution")
+                import h3 as _h3
+
+                tied = [i for i, (d, ok, g) in seen.items() if ok and d == best]
+                cells = {_h3.h3_to_parent(seen[i][2], res_cell) for i in tied if seen[i][2] and res_cell is not None}
+                if len(tied) > 1:
+                    REC.calls["tie_nearest_entity"] += 1
+                    if len(cells) > 1:
+                        REC.calls["tie_nearest_entity_across_search_cells"] += 1
+        except Exception:
+            pass
         return res
 
     H3Ops.nearest_entity = classmethod(nearest_entity)
